@@ -429,6 +429,7 @@ def run_stream_case(cfg, plan, reuse=False):
             'max_payload': [d.max_payload[0], d.max_payload[1]],
             'min_credits': [d.min_credits[0], d.min_credits[1]],
             'pn_resp_larger': r.mon.pn_response_larger,
+            'over_pn_resp': r.mon.frames_over_pn_response_n1,
             'cr_anomalies': r.mon.cr_anomalies,
         }
         return viol, obs
@@ -503,11 +504,6 @@ def stream_cases(quick):
     return cases
 
 
-def cfg_class(cfg):
-    """Which parameters are off default (names only) - part of signatures."""
-    return '+'.join(sorted(cfg)) or 'default'
-
-
 _CONFIRMED = set()
 
 
@@ -544,6 +540,8 @@ def w_stream(items):
                 st.count('runs_with_credit_only_frames')
             if obs['pn_resp_larger']:
                 st.count('runs_pn_response_n1_larger_than_request')
+            if obs['over_pn_resp']:
+                st.count('runs_with_frames_larger_than_pn_response_n1')
             if obs['cr_anomalies']:
                 st.count('runs_with_cr_bit_anomalies')
         if len(st.samples) < 2 and plan['c'] and plan['s'] and cfg:
@@ -958,101 +956,6 @@ def run_sched(params, prefix, fp):
         return {'points': sched.points, 'fp': sched.fp, 'obs': obs, 'viol': viol}
 
 
-# ---------------------------------------------------------------------------
-# entry points
-# ---------------------------------------------------------------------------
-def _balanced(items, cost, n):
-    """n slices of roughly equal estimated cost (longest first, greedy)."""
-    order = sorted(range(len(items)), key=lambda i: -cost(items[i]))
-    bins = [[0.0, []] for _ in range(max(1, min(n, len(items))))]
-    for i in order:
-        b = min(bins, key=lambda b: b[0])
-        b[0] += cost(items[i])
-        b[1].append(i)
-    return [[items[i] for i in sorted(b[1])] for b in bins]
-
-
-def run(ctx: core.Context) -> int:
-    quick = ctx.quick
-    only = getattr(ctx, 'only', None)
-
-    def want(name):
-        return not only or name in only
-
-    if want('stream'):
-        cases = stream_cases(quick)
-        parts = _balanced(cases, lambda cp: stream_cost(*cp), ctx.jobs * 6)
-        for r in core.pmap(w_stream, parts, ctx.jobs):
-            ctx.sub('stream').merge(r)
-        ctx.log('stream:', ctx.sub('stream').summary())
-    if want('multi'):
-        depth = 5 if quick else 6
-        hs = histories(depth)
-        for r in core.pmap(w_multi, core.split(hs, ctx.jobs * 6), ctx.jobs):
-            ctx.sub('multi').merge(r)
-        ctx.sub('multi').counters['history_depth'] = depth
-        ctx.log('multi:', ctx.sub('multi').summary())
-    if want('sched'):
-        st = ctx.sub('sched')
-        bound = 1 if quick else 2
-        for s in SCHED_SCRIPTS:
-            explore.explore(run_sched, {'script': s}, bound, ctx.jobs, st, max_runs=None if quick else 15000, label=f'{s}:')
-        for late in ('s', 'c'):
-            for delay in SAME_CLOSE_DELAYS:
-                explore.explore(run_sched, {'script': 'same_close', 'delay': delay, 'late': late}, 1, ctx.jobs, st, label=f'same_close+{delay}{late}:')
-        ctx.log('sched:', st.summary())
-    if want('slc'):
-        run_slc(ctx)
-    if want('at'):
-        run_at(ctx)
-    return core.finish(
-        ctx,
-        LEVEL,
-        rule=RULE,
-        assumptions=ASSUMPTIONS,
-    )
-
-
-RULE = (
-    'stream: (max frame size per side in {23,24,127,128,129,1000,32767}, initial credits per side 1..7, L2CAP MTU per side in '
-    '{48,132,133,2048,65535}, ACL packet size {27,1021}) with <= 2 parameters off default x write-size sequences over '
-    '{1,E-1,E,E+1,3E,20E[,2E+1,33E,70E]} (E = reference payload room of that direction) in both directions, issued back to back, '
-    'one per quiescence, or from inside the acceptor; distinct = (configuration, plan). multi: every operation history of the '
-    'stated depth over 3 channels of different geometry (open, close by either end, transfer, transfer concurrent with another '
-    "link's open/close, simultaneous closes, shutdown, restart); distinct = history. sched: 5 scripts x all order-preserving "
-    'delivery delays within the deviation bound; distinct = (schedule prefix, choice fingerprints). slc: HF feature subsets x AG '
-    'feature subsets over the bits the SLC code branches on x list configurations; distinct = configuration pair. at: AG '
-    'handler x arity x value class x AG state, plus every command-emitting HfProtocol method; distinct = (state, command line).'
-)
-ASSUMPTIONS = [
-    'RFCOMM links are opened by the Client side (bumble.rfcomm.Client has no acceptor, a server-initiated open_dlc is never answered)',
-    'applications install their sink as soon as they are handed the DLC (acceptor callback / return of open_dlc)',
-    'max frame size is per direction: a frame must fit what its RECEIVER announced in its PN (bumble does not reduce the PN response to the requested N1; counted, not a verdict)',
-    'an AG configured without any AG indicator is not a valid HFP configuration and is not enumerated',
-    'AT lines that are not HFP commands (V.250 basic commands such as ATZ) belong to C17 and are not enumerated',
-]
-
-
-def replay(v: core.Violation):
-    c = v.case
-    if 'plan' in c:
-        viol, _ = run_stream_case(c['cfg'], c['plan'])
-        return [m for ck, _, m in viol if ck == v.check]
-    if 'history' in c:
-        viol, _ = run_history([tuple(op) for op in c['history']])
-        return [m for ck, _, m in viol if ck == v.check]
-    if 'prefix' in c:
-        res = run_sched(c['params'], c['prefix'], None)
-        return [m for ck, _, m in res['viol'] if ck == v.check]
-    if 'slc' in c:
-        viol, _ = run_slc_case(c['slc'])
-        return [m for ck, _, m in viol if ck == v.check]
-    if 'at' in c:
-        return replay_at(v)
-    return []
-
-
-# (HFP sub-checks are defined below and bound late)
 
 
 # ---------------------------------------------------------------------------
@@ -1664,3 +1567,97 @@ def replay_at(v):
         if bad or res['probe_finals'] != 1:
             msgs.append(f'[{c["state"]}] {c["what"]!r}: {bad}, following AT+CHUP got {res["probe_finals"]} finals, exceptions {res["exc"]}')
     return msgs
+
+
+# ---------------------------------------------------------------------------
+# entry points
+# ---------------------------------------------------------------------------
+def _balanced(items, cost, n):
+    """n slices of roughly equal estimated cost (longest first, greedy)."""
+    order = sorted(range(len(items)), key=lambda i: -cost(items[i]))
+    bins = [[0.0, []] for _ in range(max(1, min(n, len(items))))]
+    for i in order:
+        b = min(bins, key=lambda b: b[0])
+        b[0] += cost(items[i])
+        b[1].append(i)
+    return [[items[i] for i in sorted(b[1])] for b in bins]
+
+
+def run(ctx: core.Context) -> int:
+    quick = ctx.quick
+    only = getattr(ctx, 'only', None)
+
+    def want(name):
+        return not only or name in only
+
+    if want('stream'):
+        cases = stream_cases(quick)
+        parts = _balanced(cases, lambda cp: stream_cost(*cp), ctx.jobs * 6)
+        for r in core.pmap(w_stream, parts, ctx.jobs):
+            ctx.sub('stream').merge(r)
+        ctx.log('stream:', ctx.sub('stream').summary())
+    if want('multi'):
+        depth = 5 if quick else 6
+        hs = histories(depth)
+        for r in core.pmap(w_multi, core.split(hs, ctx.jobs * 6), ctx.jobs):
+            ctx.sub('multi').merge(r)
+        ctx.sub('multi').counters['history_depth'] = depth
+        ctx.log('multi:', ctx.sub('multi').summary())
+    if want('sched'):
+        st = ctx.sub('sched')
+        bound = 1 if quick else 2
+        for s in SCHED_SCRIPTS:
+            explore.explore(run_sched, {'script': s}, bound, ctx.jobs, st, max_runs=None if quick else 15000, label=f'{s}:')
+        for late in ('s', 'c'):
+            for delay in SAME_CLOSE_DELAYS:
+                explore.explore(run_sched, {'script': 'same_close', 'delay': delay, 'late': late}, 1, ctx.jobs, st, label=f'same_close+{delay}{late}:')
+        ctx.log('sched:', st.summary())
+    if want('slc'):
+        run_slc(ctx)
+    if want('at'):
+        run_at(ctx)
+    return core.finish(
+        ctx,
+        LEVEL,
+        rule=RULE,
+        assumptions=ASSUMPTIONS,
+    )
+
+
+RULE = (
+    'stream: (max frame size per side in {23,24,127,128,129,1000,32767}, initial credits per side 1..7, L2CAP MTU per side in '
+    '{48,132,133,2048,65535}, ACL packet size {27,1021}) with <= 2 parameters off default x write-size sequences over '
+    '{1,E-1,E,E+1,3E,20E[,2E+1,33E,70E]} (E = reference payload room of that direction) in both directions, issued back to back, '
+    'one per quiescence, or from inside the acceptor; distinct = (configuration, plan). multi: every operation history of the '
+    'stated depth over 3 channels of different geometry (open, close by either end, transfer, transfer concurrent with another '
+    "link's open/close, simultaneous closes, shutdown, restart); distinct = history. sched: 5 scripts x all order-preserving "
+    'delivery delays within the deviation bound; distinct = (schedule prefix, choice fingerprints). slc: HF feature subsets x AG '
+    'feature subsets over the bits the SLC code branches on x list configurations; distinct = configuration pair. at: AG '
+    'handler x arity x value class x AG state, plus every command-emitting HfProtocol method; distinct = (state, command line).'
+)
+ASSUMPTIONS = [
+    'RFCOMM links are opened by the Client side (bumble.rfcomm.Client has no acceptor, a server-initiated open_dlc is never answered)',
+    'applications install their sink as soon as they are handed the DLC (acceptor callback / return of open_dlc)',
+    'max frame size is per direction: a frame must fit what its RECEIVER announced in its PN (bumble does not reduce the PN response to the requested N1; counted, not a verdict)',
+    'an AG configured without any AG indicator is not a valid HFP configuration and is not enumerated',
+    'AT lines that are not HFP commands (V.250 basic commands such as ATZ) belong to C17 and are not enumerated',
+]
+
+
+def replay(v: core.Violation):
+    c = v.case
+    if 'plan' in c:
+        viol, _ = run_stream_case(c['cfg'], c['plan'])
+        return [m for ck, _, m in viol if ck == v.check]
+    if 'history' in c:
+        viol, _ = run_history([tuple(op) for op in c['history']])
+        return [m for ck, _, m in viol if ck == v.check]
+    if 'prefix' in c:
+        res = run_sched(c['params'], c['prefix'], None)
+        return [m for ck, _, m in res['viol'] if ck == v.check]
+    if 'slc' in c:
+        viol, _ = run_slc_case(c['slc'])
+        return [m for ck, _, m in viol if ck == v.check]
+    if 'at' in c:
+        return replay_at(v)
+    return []
